@@ -315,6 +315,14 @@ F('quadbez.rs', None, 'approx_parabola_integral', 'approx_parabola_integral', FL
 F('quadbez.rs', None, 'approx_parabola_inv_integral', 'approx_parabola_inv_integral', FL + 'approx_parabola_inv_integral')
 F('quadbez.rs', 'QuadBez', 'estimate_subdiv', 'estimate_subdiv', FL + 'estimate_subdiv')
 F('quadbez.rs', 'QuadBez', 'determine_subdiv_t', 'determine_subdiv_t', FL + 'determine_subdiv_t', model_app='KV.Flatten.determine_subdiv_t $1 $2')
+# the body of flatten's `for el in path` loop as a step function over (start_pt, last_pt, what was handed to the callback)
+# against the model's fl_step (keep = true: /repo carries the C05 repair); the CurveTo arm (ToQuads iterator, quad_buf, a
+# `while` with `break`) is not translated: the statement excludes it
+F('bezpath.rs', None, 'flatten', 'flatten_step', FL + 'fl_step', bridge='Flatten_bridge', via='simulation',
+  callback_as_push='callback', skip_arms=['CurveTo'],
+  for_body_state=[['start_pt', 'Option<Point>'], ['last_pt', 'Option<Point>'], ['callback', 'Vec<PathEl>']],
+  for_body_vars=[['el', 'PathEl'], ['tolerance', 'f64'], ['sqrt_tol', 'f64']],
+  stmt='KVBridge.Flatten_bridge.sim_fl_step $0 $1 $2 $3 $4 $5 $G')
 F('vec2.rs', 'Vec2', 'div_exact', 'v_div_exact', TQ + 'v_div_exact')
 F('cubicbez.rs', 'CubicBez', 'approx_quad_control', 'approx_quad_control', TQ + 'approx_quad_control')
 F('line.rs', 'Line', 'crossing_point', 'crossing_point', TQ + 'crossing_point',
@@ -425,6 +433,11 @@ F('stroke.rs', None, 'DASH_ACCURACY', 'DASH_ACCURACY', const=True)
 F('stroke.rs', None, 'seg_to_el', 'dash_seg_to_el', DS + 'seg_to_el')
 # the model is parametric in the two arc-length functions; the accuracy argument (a constant) is dropped
 F('bezpath.rs', 'PathSeg', 'inv_arclen', 'seg_inv_arclen', trait='ParamCurveArclen', extern=True, call='inv_arclen_ $0 $1')
+# the body of the `while` of dash_impl (the initial phase) as a step over (dash_ix, dash_remaining, is_active): one unfolding
+# of the model's fuelled init_loop.  The loop condition (it carries the fx_init repair) is outside the step.
+F('stroke.rs', None, 'dash_impl', 'dash_init_step', DS + 'init_loop', usize_as_nat=True, ret='()', bridge='Dash_bridge', via='simulation',
+  while_body_state=[['dash_ix', 'usize'], ['dash_remaining', 'f64'], ['is_active', 'bool']], while_body_vars=[['dashes', 'Vec<f64>']],
+  stmt='forall tr_fuel tr_fx, KV.Dash.init_continue tr_fx $1 $2 = true -> KV.Dash.init_loop tr_fx $3 (Datatypes.S tr_fuel) $0 $1 $2 = (let \'(_, tr_i, tr_r, tr_a) := $G in KV.Dash.init_loop tr_fx $3 tr_fuel tr_i tr_r tr_a)')
 F('stroke.rs', DI, 'get_input', 'dash_get_input', DS + 'get_input', extern=True, call='KV.Dash.get_input arclen_ KV.Dash.fixes_all init_ $0')
 F('stroke.rs', DI, 'reset_phase', 'dash_reset_phase', DS + 'reset_phase', model_app='KV.Dash.reset_phase init_ $0')
 F('stroke.rs', DI, 'handle_closepath', 'dash_handle_closepath', DS + 'handle_closepath', model_app='KV.Dash.handle_closepath KV.Dash.fixes_all init_ $0')
